@@ -3,18 +3,20 @@
 import json, re, shutil, sys
 from pathlib import Path
 pid, wt = sys.argv[1], Path(sys.argv[2])
+offset = int(sys.argv[3]) if len(sys.argv) > 3 else 0      # numbering offset for later seeding rounds
 for vf in sorted(wt.glob("verify_*.txt")):
     k = re.search(r"verify_(\d+)", vf.name).group(1)
     line = vf.read_text().strip()
     m = re.search(r"demo_pristine_exit=(\d+) demo_seeded_exit=(\d+) tests_exit=(\d+)", line)
     if not m or m.group(1) != "0" or m.group(2) == "0" or m.group(3) != "0":
         print("NOT KEPT", pid, k, line); continue
-    out = Path("/verif/seeded") / f"{pid}-{k}"
+    kk = int(k) + offset
+    out = Path("/verif/seeded") / f"{pid}-{kk}"
     out.mkdir(parents=True, exist_ok=True)
     shutil.copy(wt / f"seed_{k}.diff", out / "patch.diff")
     shutil.copy(wt / f"demo_{k}.py", out / "demo.py")
     meta = json.loads((wt / f"seed_{k}.json").read_text())
-    meta.update(id=f"{pid}-{k}", property=pid, origin="independent sub-agent given only the property text and a scratch worktree",
+    meta.update(id=f"{pid}-{kk}", property=pid, origin="independent sub-agent given only the property text and a scratch worktree",
                 confirmed=dict(how="tools/verify_seed.sh in a scratch worktree: demo.py on the pristine checkout, demo.py with patch.diff applied, "
                                    "then the whole pinned suite (pytest -x tests) with patch.diff applied",
                                demo_exit_pristine=int(m.group(1)), demo_exit_seeded=int(m.group(2)),
